@@ -417,6 +417,12 @@ def analyse(args):
                 return rec
             try:
                 ev = E.catalog('default')
+                acc_dis = validate_acceptance('default', ev)
+                rec['acceptance_validated'] = not acc_dis
+                if acc_dis:
+                    rec['status'] = 'unsupported'
+                    rec['detail'] = 'acceptance predicate disagrees with real SQLite: %s' % '; '.join(acc_dis)[:300]
+                    return rec
                 D.reset_db('other')
                 D.create_tables(D.build_models(final_spec), 'other')
                 fr = E.catalog('other')
@@ -519,6 +525,97 @@ def replay_c02(spec, muts, sql, model):
                 if str(want) != str(val) and not (want is None and val is None):
                     bad.append((ft, fc, 'id=%s got %r want %r' % (rid, val, want)))
     return {'reproduced': bool(bad), 'kind': 'data', 'bad': bad[:6], 'rows': start_rows}
+
+
+def offer_rows(alias, model):
+    """Insert the rows into the (empty) database `alias`; True iff SQLite accepts all of them and
+    no foreign key dangles. The rows are removed again."""
+    from vlib import e2 as E
+    from django.db import connections
+    from django.db.utils import IntegrityError, DatabaseError
+    conn = connections[alias]
+    cat = E.catalog(alias)
+    ok = True
+    try:
+        with conn.cursor() as c:
+            c.execute('PRAGMA foreign_keys = OFF')
+            try:
+                for t, rows in model.items():
+                    for row in rows:
+                        conc = dict((col, _conv(v, cat[t]['columns'][col]['type'])) for col, v in row.items())
+                        cols = list(conc)
+                        c.execute('INSERT INTO "%s" (%s) VALUES (%s)' % (
+                            t, ', '.join('"%s"' % x for x in cols), ', '.join(['%s'] * len(cols))),
+                            [conc[x] for x in cols])
+                c.execute('PRAGMA foreign_key_check')
+                if c.fetchall():
+                    ok = False
+            except (IntegrityError, DatabaseError):
+                ok = False
+            for t in model:
+                try:
+                    c.execute('DELETE FROM "%s"' % t)
+                except Exception:
+                    pass
+    except Exception:
+        ok = False
+    return ok
+
+
+def validate_acceptance(alias, cat):
+    """Guard for the acceptance predicate: four fixed contents (valid, duplicated, all-NULL,
+    dangling/negative) are offered to the real database and to the predicate; they must agree.
+    -> list of disagreements."""
+    import z3
+    from vlib import e2 as E
+    from vlib import sqlsmt as S
+    tables = [t for t in cat if list(cat[t]['columns'])]
+    out = []
+    for kind in ('valid', 'duplicate', 'nulls', 'dangling_negative'):
+        rows = {}
+        n = 10
+        for t in tables:
+            fks = dict((f[0], f) for f in cat[t]['fks'])
+            trs = []
+            for r in range(2):
+                row = {}
+                for cname, cinfo in cat[t]['columns'].items():
+                    n += 1
+                    if cinfo['pk']:
+                        v = r + 1
+                    elif cname in fks:
+                        v = 99 if kind == 'dangling_negative' else 1
+                    elif cinfo['type'] == 'bool':
+                        v = r
+                    elif kind == 'nulls':
+                        v = None
+                    elif kind == 'dangling_negative':
+                        v = -n
+                    elif kind == 'duplicate':
+                        v = 7
+                    else:
+                        v = n
+                    row[cname] = v
+                trs.append(row)
+            rows[t] = trs
+        real = offer_rows(alias, rows)
+        vals = S.Values()
+        sym = E.sym_rows(dict((t, cat[t]) for t in tables), vals)
+        s = z3.Solver()
+        for t in tables:
+            for r in range(2):
+                for cname in cat[t]['columns']:
+                    n_, v_ = sym[t][r][cname]
+                    v = rows[t][r][cname]
+                    s.add(n_ == (v is None))
+                    if v is not None:
+                        s.add(v_ == v)
+        s.add(S.acceptance(dict((t, cat[t]) for t in tables), sym, vals))
+        modelled = str(s.check()) == 'sat'
+        if modelled != real:
+            out.append('%s content: real SQLite %s, predicate %s' % (kind, 'accepts' if real else 'rejects',
+                                                                      'accepts' if modelled else 'rejects'))
+    return out
 
 
 def replay_c01(spec, final_spec, sql, model):
@@ -642,6 +739,7 @@ def run(prop, tier):
                                     for r in recs if r['status'] == 'encoding_mismatch'][:20],
             'unknown': counts.get('unknown', 0),
             'translation_validated_programs': len([r for r in recs if r.get('translation_validated')]),
+            'acceptance_predicate_validated_programs': len([r for r in recs if r.get('acceptance_validated')]),
             'queries': len([r for r in recs if 'solver_s' in r]),
             'solver_s': round(sum(r.get('solver_s', 0) for r in recs), 2),
             'programs_with_rebuild': len([r for r in analysed if r.get('rebuilds')]),
